@@ -33,23 +33,40 @@ class O:
             self.x = x
 
 
-def template(mapping, name='x'):
+# tag options that must not change what the statistics are (they are about
+# all x values of the sequence, whatever is displayed and in which order)
+TAG_OPTS = ['', '', '', 'sort=x', 'sort=x/cmp/desc', 'reverse',
+            'sort=x reverse', 'size=2 start=1 orphan=0', 'prefix=p',
+            'size=3 orphan=0 sort=x', 'sort=x/nocase', 'sort=x/nocase/desc']
+
+
+def template(mapping, name='x', opts=''):
     from DocumentTemplate import HTML
-    key = (mapping, name)
+    key = (mapping, name, opts)
     if key not in _T:
         expr = '[' + ', '.join("_['%s-%s']" % (n, name) for n in NAMES) + ']'
-        _T[key] = HTML('<dtml-in s%s><dtml-if sequence-end><dtml-return '
+        _T[key] = HTML('<dtml-in s%s %s><dtml-if sequence-end><dtml-return '
                        '"%s"></dtml-if></dtml-in>' % (
-                           ' mapping' if mapping else '', expr))
+                           ' mapping' if mapping else '', opts, expr))
     return _T[key]
 
 
 def check(case):
     vals = [None if v is None else v for v in case['vals']]
+    if case['kind'] == 'date':
+        import datetime
+        vals = [None if v is None else datetime.date(2021, 1 + v % 12,
+                                                     1 + v % 28)
+                for v in vals]
     mapping = case['mapping']
     seq = [{'x': v} for v in vals] if mapping else [O(v) for v in vals]
+    opts = TAG_OPTS[case.get('opts', 0) % len(TAG_OPTS)]
+    if 'nocase' in opts and (case['kind'] != 'str' or None in vals):
+        # a comparison function of the author's is only handed real strings
+        opts = opts.replace('/nocase/desc', '/cmp/desc').replace('/nocase',
+                                                                 '')
     try:
-        out = template(mapping)(s=seq)
+        out = template(mapping, 'x', opts)(s=seq)
     except Exception as e:
         kind = 'equal-floats' if len(set(v for v in vals if v is not None)) \
             == 1 else 'other'
@@ -64,8 +81,12 @@ def check(case):
         return 'count', '%r: count %r, expected %d' % (vals, d['count'], c)
     if c == 0:
         return None
-    if case['kind'] == 'str':
+    if case['kind'] in ('str', 'date'):
+        # non-numeric values: count, min, max, median only
         sx = sorted(xs)
+        if case['kind'] == 'date':
+            sx = sorted(xs)
+            lo_hi = [str(v) for v in sx]
         if d['min'] != sx[0] or d['max'] != sx[-1]:
             return 'str-minmax', '%r: min %r max %r' % (vals, d['min'],
                                                         d['max'])
@@ -80,9 +101,9 @@ def check(case):
             lo, hi = sx[c // 2 - 1], sx[c // 2]
             m = d['median']
             if lo == hi:
-                ok = m == lo or (isinstance(m, str) and lo in m)
+                ok = m == lo or (isinstance(m, str) and str(lo) in m)
             else:
-                ok = isinstance(m, str) and lo in m and hi in m
+                ok = isinstance(m, str) and str(lo) in m and str(hi) in m
             if not ok:
                 return 'str-median-even', '%r: median %r, middle values %r ' \
                     '%r' % (vals, m, lo, hi)
@@ -209,8 +230,12 @@ def strategy():
     base = st.one_of(lst(ints, 'int'), lst(small, 'int'), lst(floats,
                                                               'float'),
                      mix, lst(strs, 'str'), eqf, near, huge)
-    return st.tuples(base, st.booleans()).map(
-        lambda t: dict(t[0], mapping=t[1]))
+    dates = st.lists(st.one_of(st.integers(0, 40), st.integers(0, 40),
+                               none), min_size=1, max_size=8).map(
+        lambda v: dict(kind='date', vals=v))
+    return st.tuples(st.one_of(base, base, base, base, dates),
+                     st.booleans(), st.integers(0, 11)).map(
+        lambda t: dict(t[0], mapping=t[1], opts=t[2]))
 
 
 def nontrivial(case):
